@@ -81,6 +81,14 @@ public:
 
     static bool isValidPacket(const uint8_t* data, const size_t size);
 
+#ifdef ASAM_CMP_LIB_VERIF
+    // Verification hook: tells whether the packet holds a payload object
+    bool verifHasPayload() const
+    {
+        return payload != nullptr;
+    }
+#endif  // ASAM_CMP_LIB_VERIF
+
 private:
     std::unique_ptr<Payload> create(const PayloadType type, const uint8_t* data, const size_t size);
 
